@@ -225,10 +225,10 @@ func (w *walker) check(typ zed.Type, body []byte, inSet bool, path string, depth
 		if len(elems) != 2 {
 			return bad("union-arity", "union body has %d elements, want 2", len(elems))
 		}
+		// A null tag decodes as 0 everywhere in the code base (DecodeInt(nil)
+		// is 0); it is accepted here as tag 0 rather than called an
+		// inconsistency.
 		tb := elems[0].body
-		if tb == nil {
-			return bad("union-tag-null", "union tag is null")
-		}
 		tag := countedVarint(tb)
 		if tag < 0 || tag >= int64(len(typ.Types)) {
 			return bad("union-tag", "union tag %d out of range for %d member types", tag, len(typ.Types))
